@@ -204,7 +204,8 @@ func funcSplitVec(chunk []KVPair, args []Expression, ctx *ExecuteCtx) ([]any, er
 func funcJoinVec(chunk []KVPair, args []Expression, ctx *ExecuteCtx) ([]any, error) {
 	ret := make([]any, len(chunk))
 	for i := 0; i < len(chunk); i++ {
-		row, err := funcJoin(chunk[i], args, ctx)
+		// row-at-a-time evaluation must not share the per-row field cache between rows
+		row, err := funcJoin(chunk[i], args, nil)
 		if err != nil {
 			return nil, err
 		}
@@ -270,7 +271,8 @@ func funcL2DistanceVec(chunk []KVPair, args []Expression, ctx *ExecuteCtx) ([]an
 func funcFloatListVec(chunk []KVPair, args []Expression, ctx *ExecuteCtx) ([]any, error) {
 	ret := make([]any, len(chunk))
 	for i := 0; i < len(chunk); i++ {
-		row, err := funcFloatList(chunk[i], args, ctx)
+		// row-at-a-time evaluation must not share the per-row field cache between rows
+		row, err := funcFloatList(chunk[i], args, nil)
 		if err != nil {
 			return nil, err
 		}
@@ -282,7 +284,8 @@ func funcFloatListVec(chunk []KVPair, args []Expression, ctx *ExecuteCtx) ([]any
 func funcIntListVec(chunk []KVPair, args []Expression, ctx *ExecuteCtx) ([]any, error) {
 	ret := make([]any, len(chunk))
 	for i := 0; i < len(chunk); i++ {
-		row, err := funcIntList(chunk[i], args, ctx)
+		// row-at-a-time evaluation must not share the per-row field cache between rows
+		row, err := funcIntList(chunk[i], args, nil)
 		if err != nil {
 			return nil, err
 		}
@@ -295,7 +298,7 @@ func funcToListVec(chunk []KVPair, args []Expression, ctx *ExecuteCtx) ([]any, e
 	if len(args) == 0 || len(chunk) == 0 {
 		return nil, nil
 	}
-	first, err := args[0].Execute(chunk[0], ctx)
+	first, err := args[0].Execute(chunk[0], nil)
 	if err != nil {
 		return nil, err
 	}
